@@ -411,6 +411,7 @@ theorem WF.vRemoveVariable {m : Bqm} (h : WF m) (tv : VT) (v : Option Label) : W
       · refine WF.removeVariable (WF.vSetLinear ?_ _ _ _) _
         apply foldl_pres WF _ _ _ _ h
         intro a p ha
+        unfold Bqm.loopBody
         split
         · exact ha.vSetQuadratic _ _ _ _
         · exact ha
@@ -434,11 +435,13 @@ theorem WF.vScale {m : Bqm} (h : WF m) (tv : VT) (viaView : Bool) (s : Rat) : WF
   · refine WF.vSetOffset ?_ _ _
     apply foldl_pres WF
     · intro a t ha
+      unfold Bqm.scaleQuadStep
       split
       · exact ha.vSetQuadratic _ _ _ _
       · exact ha
     · apply foldl_pres WF _ _ _ _ h
       intro a i ha
+      unfold Bqm.scaleLinStep
       split
       · exact ha.vSetLinear _ _ _
       · exact ha
@@ -451,6 +454,7 @@ theorem WF.vContract {m : Bqm} (h : WF m) (tv : VT) (u v : Label) : WF (m.vContr
     · refine WF.vRemoveVariable ?_ _ _
       apply foldl_pres WF
       · intro a p ha
+        unfold Bqm.loopBody
         split
         · exact ha.vAddQuadratic _ _ _ _
         · exact ha
@@ -474,12 +478,14 @@ theorem WF.vFlip {m : Bqm} (h : WF m) (tv : VT) (vv : Bool) (v : Label) : WF (m.
     · refine WF.vSetLinear ?_ _ _ _
       apply foldl_pres WF _ _ _ _ h
       intro a p ha
+      unfold Bqm.loopBody
       split
       · exact ha.setQuadVia _ _ _ _ _
       · exact ha
     · refine WF.vSetLinear (WF.vSetOffset ?_ _ _) _ _ _
       apply foldl_pres WF _ _ _ _ h
       intro a p ha
+      unfold Bqm.loopBody
       split
       · exact (ha.setQuadVia _ _ _ _ _).vAddLinear _ _ _
       · exact ha
